@@ -818,7 +818,13 @@ impl Walrus {
 
         // Plan tail if we're at the end of sealed chain
         if cur_idx >= chain_len_at_plan {
-            if let Some((active_block, written)) = writer_snapshot.clone() {
+            // The writer snapshot was taken before the column lock. If the writer sealed that
+            // block in between, it is already part of `chain` (and was planned above);
+            // planning it again as the tail would deliver its entries twice.
+            let tail_snapshot = writer_snapshot
+                .clone()
+                .filter(|(blk, _)| !chain.iter().any(|sealed| sealed.id == blk.id));
+            if let Some((active_block, written)) = tail_snapshot {
                 // Determine start of tail read
                 let mut tail_start = if start_offset.is_some() {
                     tail_offset // 'rem'
